@@ -30,6 +30,8 @@ SPEC = {
 }
 SPEC['explanation'] += " T19t: split_iter recognises an omitted sep / maxsplit by identity, never by truthiness (0, '' and False are separators; maxsplit=0 is a bound). T25.stride: chunk_ranges aligns the first chunk modulo the same stride the range loop steps by."
 SPEC['decided'] += ['None-default parameters never tested by truthiness', 'alignment modulus == stride']
+SPEC['explanation'] += ' T20.nocache: the functions that build a fresh list / dict / generator per call are not memoised.'
+SPEC['decided'] += ['results are fresh per call (no memoising decorator)']
 MANIFEST = {
     'technique': 'syntactic delegation check, consumption-count (one-pass) dataflow, nesting-depth and pairing checks on CFG paths, dominating-guard checks',
     'text': ('Decides by construction that list and iterator forms agree, that a one-shot source is traversed once, and a few '
@@ -62,6 +64,8 @@ def bound_args(call, callee):
 
 
 def run(ctx):
+    from rules.common import check_not_memoised as _cnm
+    _cnm(ctx, [ctx.program.func(n) for n in ['iterutils.split', 'iterutils.split_iter', 'iterutils.chunked', 'iterutils.chunked_iter', 'iterutils.chunk_ranges', 'iterutils.windowed', 'iterutils.windowed_iter', 'iterutils.unique', 'iterutils.unique_iter', 'iterutils.bucketize', 'iterutils.partition', 'iterutils.lstrip', 'iterutils.rstrip', 'iterutils.strip', 'iterutils.lstrip_iter', 'iterutils.rstrip_iter', 'iterutils.strip_iter', 'iterutils.pairwise', 'iterutils.pairwise_iter']])
     prog = ctx.program
     for lst, it, _ in DELEG:
         f, g = prog.func('%s.%s' % (M, lst)), prog.func('%s.%s' % (M, it))
@@ -295,6 +299,23 @@ def run(ctx):
                    loc=loc(cr, n), detail='names holding the input end: %s' % sorted(STOPS))
     if n_end == 0:
         ctx.unknown('T7.end', cr.fq, 'no yield of a (start, end) pair found', cr.loc)
+    # T7.stop: the loop over chunk starts runs up to the end of the input; a bound shortened by a non-negative amount (the overlap, the
+    # chunk size, a constant) yields nothing at all for an input no longer than that amount
+    for n in ast.walk(cr.node):
+        if isinstance(n, ast.For) and isinstance(n.iter, ast.Call) and call_name(n.iter) == 'range' and len(n.iter.args) >= 2 and \
+                any(isinstance(y, ast.Yield) for y in ast.walk(n)):
+            b = n.iter.args[1]
+            if isinstance(b, ast.Name) and b.id not in STOPS and b.id not in cr.params:     # a local bound once stands for its value
+                defs = [a.value for a in ast.walk(cr.node) if isinstance(a, ast.Assign) and len(a.targets) == 1 and txt(a.targets[0]) == b.id]
+                n_st = sum(1 for x in ast.walk(cr.node) if isinstance(x, ast.Name) and x.id == b.id and isinstance(x.ctx, ast.Store))
+                if len(defs) == 1 and n_st == 1:
+                    b = defs[0]
+            short = isinstance(b, ast.BinOp) and isinstance(b.op, ast.Sub) and is_stop(b.left) and (
+                (isinstance(b.right, ast.Name) and b.right.id in cr.params) or
+                (isinstance(b.right, ast.Constant) and isinstance(b.right.value, (int, float)) and b.right.value > 0))
+            if is_stop(b) or short:
+                ctx.ob('T7.stop', cr.fq, 'the loop over chunk starts runs up to the end of the input (`%s`)' % txt(b), not short, loc=loc(cr, n),
+                       detail='a bound of end - x yields no chunk for an input no longer than x')
     # chunked_iter: fill consulted before every yield
     ci = prog.func(M + '.chunked_iter')
     # names that carry "was fill given / what is it", by role: everything bound by the statement that reads the 'fill' option
@@ -336,5 +357,83 @@ def run(ctx):
                        ok, loc=loc(ci, o.node), path=p.describe() if not ok else None)
     if n_y == 0:
         ctx.unknown('T7.fill', ci.fq, 'no yield found', ci.loc)
+    # T9.nonempty: a chunk is known to be non-empty before it is padded or yielded (an exhausted source must not produce a chunk of fill values)
+    CH, LEN = set(), set()
+    for n in ast.walk(ci.node):
+        if isinstance(n, (ast.Assign, ast.NamedExpr)) and any(isinstance(c, ast.Call) and call_name(c) in ('islice', 'itertools.islice')
+                                                               for c in ast.walk(n.value)):
+            for t in (n.targets if isinstance(n, ast.Assign) else [n.target]):
+                if isinstance(t, ast.Name):
+                    CH.add(t.id)
+    for n in ast.walk(ci.node):
+        if isinstance(n, ast.Assign) and isinstance(n.value, ast.Call) and call_name(n.value) == 'len' and n.value.args \
+                and isinstance(n.value.args[0], ast.Name) and n.value.args[0].id in CH:
+            LEN |= {t.id for t in n.targets if isinstance(t, ast.Name)}
+
+    def _is_len(e):
+        return (isinstance(e, ast.Name) and e.id in LEN) or (isinstance(e, ast.Call) and call_name(e) == 'len' and e.args
+                                                             and isinstance(e.args[0], ast.Name) and e.args[0].id in CH)
+
+    def _nonempty(x):
+        n, out = x.node, x.info
+        while isinstance(n, ast.UnaryOp) and isinstance(n.op, ast.Not):
+            n, out = n.operand, (not out if out is not None else None)
+        if isinstance(n, ast.NamedExpr):
+            n = n.target
+        if (isinstance(n, ast.Name) and n.id in CH) or _is_len(n):
+            return out is True
+        if isinstance(n, ast.Compare) and len(n.ops) == 1:
+            l, r, op = n.left, n.comparators[0], type(n.ops[0])
+            if not _is_len(l) and _is_len(r):
+                l, r = r, l
+                op = {ast.Lt: ast.Gt, ast.Gt: ast.Lt, ast.LtE: ast.GtE, ast.GtE: ast.LtE}.get(op, op)
+            if isinstance(l, ast.Name) and l.id in CH and isinstance(r, (ast.List, ast.Tuple)) and not r.elts:
+                return (op is ast.NotEq and out is True) or (op is ast.Eq and out is False)
+            if _is_len(l) and isinstance(r, ast.Constant) and isinstance(r.value, int) and not isinstance(r.value, bool):
+                k = r.value
+                if op is ast.Eq:
+                    return (k == 0 and out is False) or (k >= 1 and out is True)
+                if op is ast.NotEq:
+                    return k == 0 and out is True
+                if op is ast.Gt:
+                    return k >= 0 and out is True
+                if op is ast.GtE:
+                    return k >= 1 and out is True
+                if op is ast.Lt:
+                    return k <= 1 and out is False
+                if op is ast.LtE:
+                    return k <= 0 and out is False
+            if _is_len(l) and txt(r) == 'size':          # size is validated >= 1: a full chunk is not empty
+                return (op in (ast.Eq, ast.GtE) and out is True) or (op in (ast.Lt, ast.NotEq) and out is False)
+        return False
+
+    def _pads(x):
+        if x.kind == 'sub_store':
+            v = x.node.value if isinstance(x.node, ast.Subscript) else None
+            return isinstance(v, ast.Name) and v.id in CH
+        if x.kind == 'aug':
+            t = x.node.target
+            return isinstance(t, ast.Name) and t.id in CH
+        if x.kind == 'call' and isinstance(x.node.func, ast.Attribute) and x.node.func.attr in ('extend', 'append', 'insert'):
+            v = x.node.func.value
+            return isinstance(v, ast.Name) and v.id in CH
+        return False
+    if CH:
+        for p in paths:
+            ops = p.ops
+            for o in ops:
+                if o.kind != 'yield':
+                    continue
+                born = max([x.seq for x in ops if x.seq < o.seq and x.kind == 'name_store' and isinstance(x.node, ast.Name)
+                            and x.node.id in CH] or [-1])
+                if born < 0:
+                    continue
+                seg = [x for x in ops if born < x.seq < o.seq]
+                first_pad = min([x.seq for x in seg if _pads(x)] or [o.seq])
+                ok = any(x.kind == 'test' and x.seq < first_pad and _nonempty(x) for x in seg)
+                ctx.ob('T9.nonempty', ci.fq, 'a chunk is known to be non-empty before it is padded and yielded (an exhausted source yields no chunk '
+                       'of fill values)', ok, loc=loc(ci, o.node), path=p.describe() if not ok else None)
+    else:
+        ctx.notes.append('T9.nonempty: no chunk built with islice in chunked_iter; rule not applicable to this form')
     for r, n in (('T17', 11), ('T3', 8), ('T16', 2), ('T2.split', 1), ('T7.end', 2), ('T7.fill', 1), ('T23', 1)):
         ctx.need(r, n)
